@@ -389,10 +389,14 @@ def impl_day(case, cost_kw=None, daylight=None):
     (cls, stationary, cost_type, unit_cost, budget, crews, consider_weather, reqs) = case[:8]
     reqs = [req_fields(q) for q in reqs]
     upfront = case[8] if len(case) > 8 else 0
+    opts = case[9] if len(case) > 9 and case[9] else {}
+    name = opts.get("name", "M")
+    day = dt.date.fromisoformat(opts["date"]) if "date" in opts else DATE0
     sites = []
     for j, (sid, S, P, ip, trav, T, scost, w, td) in enumerate(reqs):
-        sites.append(StubSite("s%d" % sid, S, scost, lat=0, lon=j))
-    m = build_method(cls, stationary, cost_type, unit_cost, budget, crews, consider_weather, sites, upfront, cost_kw)
+        sites.append(StubSite("s%d" % sid, S, scost, method=name, lat=0, lon=j))
+    m = build_method(cls, stationary, cost_type, unit_cost, budget, crews, consider_weather, sites, upfront, cost_kw,
+                     name=name)
     planners = []
     for s, (sid, S, P, ip, trav, T, scost, w, td) in zip(sites, reqs):
         pl = SurveyPlanner(s)
@@ -403,12 +407,12 @@ def impl_day(case, cost_kw=None, daylight=None):
         m._daylight_sensitive = True
         m._max_work_hours = daylight[0]
         assert 60 * min(daylight[0], daylight[1]) == budget
-        return run_day(m, sites, planners, reqs, DATE0, daylight_hours=daylight[1])
-    return run_day(m, sites, planners, reqs, DATE0)
+        return run_day(m, sites, planners, reqs, day, daylight_hours=daylight[1])
+    return run_day(m, sites, planners, reqs, day)
 
 
 def build_method(cls, stationary, cost_type, unit_cost, budget, crews, consider_weather, sites, upfront=0,
-                 cost_kw=None):
+                 cost_kw=None, name="M"):
     kw = dict(stationary=stationary, workday=1, crews=max(crews, 1), travel=0, upfront=upfront)
     if cost_type == "day":
         kw["per_day"] = unit_cost
@@ -421,7 +425,7 @@ def build_method(cls, stationary, cost_type, unit_cost, budget, crews, consider_
     if cost_kw is not None:   # explicit cost block (C10): per_day, per_site (None = key absent), upfront
         kw.pop("per_site", None)
         kw.update(cost_kw)
-    m = make_method(cls, sites=sites or [StubSite("s0", 60)], consider_weather=consider_weather, **kw)
+    m = make_method(cls, sites=sites or [StubSite("s0", 60, method=name)], consider_weather=consider_weather, name=name, **kw)
     if crews == 0 and not stationary:
         # a method whose crews are all gone: the constructor cannot produce it (crew_count 0 means
         # "estimate"), the loop of deploy_crews can still be asked what it does without crews
@@ -502,8 +506,9 @@ def impl_campaign(camp):
     for s in sites:
         sched.add_to_survey_queue(planners[s.get_id()])
     out = []
+    day0 = dt.date.fromisoformat(camp["start"]) if camp.get("start") else DATE0
     for k in range(camp["ndays"]):
-        day = DATE0 + dt.timedelta(days=k)
+        day = day0 + dt.timedelta(days=k)
         plan = sched.get_daily_sites_to_survey()
         if not plan:
             break
@@ -519,7 +524,7 @@ def impl_campaign(camp):
             else:
                 t = report_tuple(rep)
                 reqs.append((i, S, t[0], bool(t[4]), t[2], T, sc, wx, t[1]))
-        case = (cls, False, "site", 50, budget, crews, cw, reqs, 0)
+        case = (cls, False, "site", 50, budget, crews, cw, reqs, 0, {"date": day.isoformat()})
         r = run_day(m, psites, plan, reqs, day)
         out.append((case, r))
         sched.update(r.workplan, day, False)
@@ -697,3 +702,20 @@ def requeue_classes(wp, day=DATE0):
         queued.setdefault(pl.get_site().get_id(), []).append(prio)
     done = [sid for sid, pl in planners.items() if pl._surveys_this_year.get(day.year, 0) > before[sid]]
     return queued, done
+
+
+# ------------------------------------------------------------------------------------------------
+# shapes of the configured travel time (the real _get_travel_time, not the scripted one)
+# ------------------------------------------------------------------------------------------------
+def impl_travel_samples(travel, n=40, cls="method"):
+    """the real Method._get_travel_time for an int / float / list configuration; returns the values
+    drawn (the draw itself is random: an input of the model)"""
+    m = make_method(cls, travel=travel)
+    return [m._get_travel_time() for _ in range(n)], m._travel_times
+
+
+def pickle_roundtrip(obj):
+    """what a worker process receives: objects handed to the pool go through pickle (__reduce__)"""
+    import pickle
+
+    return pickle.loads(pickle.dumps(obj))
